@@ -23,17 +23,70 @@ theorem sameF_storeVars : ∀ (vars : List Var) (vs : List Val) (c : SCfg), Same
     simp only [storeVars]
     exact (sameF_writeVar c x v).trans (sameF_storeVars xs vs _)
 
+
+/-! ### statements that define no function (the shape of the conjunctions follows `fragS`) -/
+
+mutual
+def ndS (ds : List String) : Stmt → Bool
+  | .funcDef _ _ _ _ _ => false
+  | .ifS _ body elifs els => true && ndSs ds body && ndEl ds elifs && ndSs ds els
+  | .forS init _ incr body => ndO ds init && true && ndO ds incr && ndSs ds body
+  | _ => true
+def ndSs (ds : List String) : List Stmt → Bool
+  | [] => true
+  | s :: rest => ndS ds s && ndSs ds rest
+def ndEl (ds : List String) : List (Expr × List Stmt) → Bool
+  | [] => true
+  | (_, b) :: rest => true && ndSs ds b && ndEl ds rest
+def ndO (ds : List String) : Option Stmt → Bool
+  | none => true
+  | some s => ndS ds s
+end
+
+mutual
+theorem fragS_nd (ds : List String) : ∀ (st : Stmt), fragS ds st = true → ndS ds st = true
+  | .ifS c body elifs els, h => by
+    simp only [fragS, Bool.and_eq_true] at h
+    simp only [ndS, Bool.true_and, Bool.and_eq_true]
+    exact ⟨⟨fragSs_nd ds body h.1.1.2, fragEl_nd ds elifs h.1.2⟩, fragSs_nd ds els h.2⟩
+  | .forS init c incr body, h => by
+    simp only [fragS, Bool.and_eq_true] at h
+    simp only [ndS, Bool.and_true, Bool.and_eq_true]
+    exact ⟨⟨fragO_nd ds init h.1.1.1, fragO_nd ds incr h.1.2⟩, fragSs_nd ds body h.2⟩
+  | .funcDef _ _ _ _ _, h => by simp [fragS] at h
+  | .varDef _ _, _ | .varDefCall _ _, _ | .assign _ _, _ | .assignCall _ _, _ | .sliceAssign _ _ _, _ | .ret _, _ | .brk, _ | .cont, _
+  | .print _, _ | .panic _, _ | .expr _, _ => rfl
+theorem fragSs_nd (ds : List String) : ∀ (sts : List Stmt), fragSs ds sts = true → ndSs ds sts = true
+  | [], _ => rfl
+  | s :: rest, h => by
+    simp only [fragSs, Bool.and_eq_true] at h
+    simp only [ndSs, Bool.and_eq_true]
+    exact ⟨fragS_nd ds s h.1, fragSs_nd ds rest h.2⟩
+theorem fragEl_nd (ds : List String) : ∀ (el : List (Expr × List Stmt)), fragEl ds el = true → ndEl ds el = true
+  | [], _ => rfl
+  | (c, b) :: rest, h => by
+    simp only [fragEl, Bool.and_eq_true] at h
+    simp only [ndEl, Bool.true_and, Bool.and_eq_true]
+    exact ⟨fragSs_nd ds b h.1.2, fragEl_nd ds rest h.2⟩
+theorem fragO_nd (ds : List String) : ∀ (o : Option Stmt), fragO ds o = true → ndO ds o = true
+  | none, _ => rfl
+  | some s, h => by
+    simp only [fragO] at h
+    simp only [ndO]
+    exact fragS_nd ds s h
+end
+
 /-- the claims, for one amount of fuel -/
 structure FunsOK (f : Nat) : Prop where
   evalE : ∀ e c r, evalE f e c = some r → match r with | .ok _ c1 => SameF c c1 | .exit _ _ => True
   evalArgs : ∀ es c r, evalArgs f es c = some r → match r with | .ok _ c1 => SameF c c1 | .exit _ _ => True
   evalVals : ∀ es c r, evalVals f es c = some r → match r with | .ok _ c1 => SameF c c1 | .exit _ _ => True
   evalCs : ∀ es c r, evalCs f es c = some r → match r with | .ok _ c1 => SameF c c1 | .exit _ _ => True
-  execS : ∀ ds st c o c', (c.inFn = true ∨ fragS ds st = true) → execS f st c = some (o, c') → (∀ k, o ≠ .exit k) → SameF c c'
-  execSs : ∀ ds sts c o c', (c.inFn = true ∨ fragSs ds sts = true) → execSs f sts c = some (o, c') → (∀ k, o ≠ .exit k) → SameF c c'
-  execEl : ∀ ds el bs els c o c', (c.inFn = true ∨ (fragEl ds el = true ∧ fragSs ds els = true)) → execEl f el bs els c = some (o, c') →
+  execS : ∀ ds st c o c', (c.inFn = true ∨ ndS ds st = true) → execS f st c = some (o, c') → (∀ k, o ≠ .exit k) → SameF c c'
+  execSs : ∀ ds sts c o c', (c.inFn = true ∨ ndSs ds sts = true) → execSs f sts c = some (o, c') → (∀ k, o ≠ .exit k) → SameF c c'
+  execEl : ∀ ds el bs els c o c', (c.inFn = true ∨ (ndEl ds el = true ∧ ndSs ds els = true)) → execEl f el bs els c = some (o, c') →
     (∀ k, o ≠ .exit k) → SameF c c'
-  execLp : ∀ ds cond incr body c o c', (c.inFn = true ∨ (fragO ds incr = true ∧ fragSs ds body = true)) →
+  execLp : ∀ ds cond incr body c o c', (c.inFn = true ∨ (ndO ds incr = true ∧ ndSs ds body = true)) →
     execLp f cond incr body c = some (o, c') → (∀ k, o ≠ .exit k) → SameF c c'
 
 theorem R.sameOk {c : SCfg} {α : Type} {r : R α} (h : match r with | .ok _ c1 => SameF c c1 | .exit _ _ => True) {a : α} {c1 : SCfg}
@@ -331,7 +384,7 @@ theorem funsOK_succ {f : Nat} (ih : FunsOK f) : FunsOK (f + 1) := by
     case funcDef name pub rets params body =>
       rcases hctx with hin | hfr
       · simp [hin] at h
-      · simp [fragS] at hfr
+      · simp [ndS] at hfr
     case ret vals =>
       split at h
       · rename_i os c1 ha
@@ -352,10 +405,10 @@ theorem funsOK_succ {f : Nat} (ih : FunsOK f) : FunsOK (f + 1) := by
           have s2 := s1.trans ((ih.evalCs elifs c1 _ hcs))
           split at h
           · rename_i b bs _ _
-            have hctx2 : c2.inFn = true ∨ (fragSs ds body = true ∧ fragEl ds elifs = true ∧ fragSs ds els = true) := by
+            have hctx2 : c2.inFn = true ∨ (ndSs ds body = true ∧ ndEl ds elifs = true ∧ ndSs ds els = true) := by
               rcases hctx with hin | hfr
               · exact Or.inl (by rw [s2.2]; exact hin)
-              · simp only [fragS, Bool.and_eq_true] at hfr
+              · simp only [ndS, Bool.and_eq_true] at hfr
                 exact Or.inr ⟨hfr.1.1.2, hfr.1.2, hfr.2⟩
             split at h
             · exact s2.trans (ih.execSs ds body c2 o c' (hctx2.imp id (fun x => x.1)) h hne)
@@ -373,7 +426,7 @@ theorem funsOK_succ {f : Nat} (ih : FunsOK f) : FunsOK (f + 1) := by
         refine s1.trans (ih.execLp ds cond incr body c1 o c' ?_ hl hne)
         rcases hctx with hin | hfr
         · exact Or.inl (by rw [s1.2]; exact hin)
-        · simp only [fragS, Bool.and_eq_true] at hfr
+        · simp only [ndS, Bool.and_eq_true] at hfr
           exact Or.inr ⟨hfr.1.2, hfr.2⟩
       cases init with
       | none => exact hloop c (SameF.refl c) h
@@ -384,7 +437,7 @@ theorem funsOK_succ {f : Nat} (ih : FunsOK f) : FunsOK (f + 1) := by
           refine hloop c1 (ih.execS ds i c _ c1 ?_ hi (fun k => by simp)) h
           rcases hctx with hin | hfr
           · exact Or.inl hin
-          · simp only [fragS, Bool.and_eq_true, fragO] at hfr
+          · simp only [ndS, Bool.and_eq_true, ndO] at hfr
             exact Or.inr hfr.1.1.1
         · simp only [Option.some.injEq, Prod.mk.injEq] at h
           exact absurd h.1.symm (hne _)
@@ -450,14 +503,14 @@ theorem funsOK_succ {f : Nat} (ih : FunsOK f) : FunsOK (f + 1) := by
     | nil => simp only [execSs, Option.some.injEq, Prod.mk.injEq] at h; obtain ⟨_, rfl⟩ := h; exact SameF.refl c
     | cons st rest =>
       simp only [execSs] at h
-      have hst : c.inFn = true ∨ fragS ds st = true := hctx.imp id (fun x => by simp only [fragSs, Bool.and_eq_true] at x; exact x.1)
+      have hst : c.inFn = true ∨ ndS ds st = true := hctx.imp id (fun x => by simp only [ndSs, Bool.and_eq_true] at x; exact x.1)
       split at h
       · rename_i c1 h1
         have s1 := ih.execS ds st c _ c1 hst h1 (fun k => by simp)
         refine s1.trans (ih.execSs ds rest c1 o c' ?_ h hne)
         rcases hctx with hin | hfr
         · exact Or.inl (by rw [s1.2]; exact hin)
-        · simp only [fragSs, Bool.and_eq_true] at hfr; exact Or.inr hfr.2
+        · simp only [ndSs, Bool.and_eq_true] at hfr; exact Or.inr hfr.2
       · exact ih.execS ds st c o c' hst h hne
   · -- execEl
     intro ds el bs els c o c' hctx h hne
@@ -474,8 +527,8 @@ theorem funsOK_succ {f : Nat} (ih : FunsOK f) : FunsOK (f + 1) := by
       | cons b bs' =>
         simp only [execEl] at h
         split at h
-        · exact ih.execSs ds body c o c' (hctx.imp id (fun x => by simp only [fragEl, Bool.and_eq_true] at x; exact x.1.1.2)) h hne
-        · exact ih.execEl ds rest bs' els c o c' (hctx.imp id (fun x => by simp only [fragEl, Bool.and_eq_true] at x; exact ⟨x.1.2, x.2⟩)) h hne
+        · exact ih.execSs ds body c o c' (hctx.imp id (fun x => by simp only [ndEl, Bool.and_eq_true] at x; exact x.1.1.2)) h hne
+        · exact ih.execEl ds rest bs' els c o c' (hctx.imp id (fun x => by simp only [ndEl, Bool.and_eq_true] at x; exact ⟨x.1.2, x.2⟩)) h hne
         · simp at h
   · -- execLp
     intro ds cond incr body c o c' hctx h hne
@@ -483,7 +536,7 @@ theorem funsOK_succ {f : Nat} (ih : FunsOK f) : FunsOK (f + 1) := by
     split at h
     · rename_i ov c0 hce
       have s0 := funs_unary ih hce
-      have hctx0 : c0.inFn = true ∨ (fragO ds incr = true ∧ fragSs ds body = true) := hctx.imp (fun x => by rw [s0.2]; exact x) id
+      have hctx0 : c0.inFn = true ∨ (ndO ds incr = true ∧ ndSs ds body = true) := hctx.imp (fun x => by rw [s0.2]; exact x) id
       split at h
       · split at h
         · rename_i cb hb
@@ -498,14 +551,14 @@ theorem funsOK_succ {f : Nat} (ih : FunsOK f) : FunsOK (f + 1) := by
           exact s0.trans (ih.execSs ds body c0 _ _ (hctx0.imp id (fun x => x.2)) hb (fun k => by simp))
         · rename_i ob cb hnb hne' hnr hb
           have sb := s0.trans (ih.execSs ds body c0 ob cb (hctx0.imp id (fun x => x.2)) hb (fun k e => by subst e; simp at hne'))
-          have hctxb : cb.inFn = true ∨ (fragO ds incr = true ∧ fragSs ds body = true) := hctx.imp (fun x => by rw [sb.2]; exact x) id
+          have hctxb : cb.inFn = true ∨ (ndO ds incr = true ∧ ndSs ds body = true) := hctx.imp (fun x => by rw [sb.2]; exact x) id
           cases incr with
           | none => exact sb.trans (ih.execLp ds cond none body cb o c' hctxb h hne)
           | some i =>
             simp only at h
             split at h
             · rename_i c2 hi
-              have si := sb.trans (ih.execS ds i cb _ c2 (hctxb.imp id (fun x => by simpa [fragO] using x.1)) hi (fun k => by simp))
+              have si := sb.trans (ih.execS ds i cb _ c2 (hctxb.imp id (fun x => by simpa [ndO] using x.1)) hi (fun k => by simp))
               exact si.trans (ih.execLp ds cond (some i) body c2 o c' (hctx.imp (fun x => by rw [si.2]; exact x) id) h hne)
             · simp only [Option.some.injEq, Prod.mk.injEq] at h
               exact absurd h.1.symm (hne _)
